@@ -262,13 +262,98 @@ fn case_state_observation(input: &Input, ctx: &mut Ctx) -> CaseResult {
 
 pub const SUB_OBS: Sub = Sub { name: "c03.state-observation", f: case_state_observation };
 
+
+// ---------------------------------------------------------------------------------------
+// the public per-type body decoders with a length the caller declares (v3: a `usize` argument; v5 and PUBLISH: the
+// `remaining_len` field of a `Header` anyone can build): a packet, incomplete or an error, whatever is declared
+
+fn case_declared_lengths(_input: &Input, ctx: &mut Ctx) -> CaseResult {
+    use mqtt_proto::{v3, v5, QoS};
+    let mut calls = 0u64;
+    let bodies: Vec<Vec<u8>> = vec![
+        vec![],
+        vec![0x00],
+        vec![0x00, 0x01],
+        vec![0x00, 0x01, 0x00],
+        vec![0x00, 0x01, 0x00, 0x01, b'a', 0x01],
+        vec![0x00, 0x01, 0x00, 0x00, 0x01, b'a', 0x00],
+        vec![0x00, 0x01, 0x00, 0x01, 0x02, 0x80],
+        vec![0x00, 0x01, b't', 0x00, 0x01, 0x00, b'p', b'q'],
+        vec![0xFF; 9],
+    ];
+    let big: [usize; 9] = [1 << 16, (1 << 28) - 1, 1 << 28, 1 << 31, 1usize << 32, 1usize << 45, isize::MAX as usize, (isize::MAX as usize) + 3, usize::MAX];
+    for b in &bodies {
+        let mut declared: Vec<usize> = vec![0, 1, 2, 3, b.len(), b.len() + 1, b.len().saturating_sub(1)];
+        declared.extend_from_slice(&big);
+        for &d in &declared {
+            let mut r: &[u8] = b;
+            let _ = block_on(v3::Subscribe::decode_async(&mut r, d));
+            let mut r: &[u8] = b;
+            let _ = block_on(v3::Suback::decode_async(&mut r, d));
+            let mut r: &[u8] = b;
+            let _ = block_on(v3::Unsubscribe::decode_async(&mut r, d));
+            calls += 3;
+        }
+        let mut rls: Vec<u32> = vec![0, 1, 2, 3, 4, 5, 127, 128, b.len() as u32, b.len() as u32 + 1, (1 << 28) - 1, 1 << 28, 1 << 31, u32::MAX - 1, u32::MAX];
+        rls.dedup();
+        for &rl in &rls {
+            for qos in [QoS::Level0, QoS::Level1, QoS::Level2] {
+                let mut r: &[u8] = b;
+                let _ = block_on(v3::Publish::decode_async(&mut r, v3::Header::new(v3::PacketType::Publish, false, qos, false, rl)));
+                let mut r: &[u8] = b;
+                let _ = block_on(v5::Publish::decode_async(&mut r, v5::Header::new(v5::PacketType::Publish, false, qos, true, rl)));
+                calls += 2;
+            }
+            use v5::PacketType as T;
+            let h = |t: T| v5::Header::new(t, false, QoS::Level0, false, rl);
+            let mut r: &[u8] = b;
+            let _ = block_on(v5::Connect::decode_async(&mut r, h(T::Connect)));
+            let mut r: &[u8] = b;
+            let _ = block_on(v5::Connack::decode_async(&mut r, h(T::Connack)));
+            let mut r: &[u8] = b;
+            let _ = block_on(v5::Puback::decode_async(&mut r, h(T::Puback)));
+            let mut r: &[u8] = b;
+            let _ = block_on(v5::Pubrec::decode_async(&mut r, h(T::Pubrec)));
+            let mut r: &[u8] = b;
+            let _ = block_on(v5::Pubrel::decode_async(&mut r, h(T::Pubrel)));
+            let mut r: &[u8] = b;
+            let _ = block_on(v5::Pubcomp::decode_async(&mut r, h(T::Pubcomp)));
+            let mut r: &[u8] = b;
+            let _ = block_on(v5::Subscribe::decode_async(&mut r, h(T::Subscribe)));
+            let mut r: &[u8] = b;
+            let _ = block_on(v5::Suback::decode_async(&mut r, h(T::Suback)));
+            let mut r: &[u8] = b;
+            let _ = block_on(v5::Unsubscribe::decode_async(&mut r, h(T::Unsubscribe)));
+            let mut r: &[u8] = b;
+            let _ = block_on(v5::Unsuback::decode_async(&mut r, h(T::Unsuback)));
+            let mut r: &[u8] = b;
+            let _ = block_on(v5::Disconnect::decode_async(&mut r, h(T::Disconnect)));
+            let mut r: &[u8] = b;
+            let _ = block_on(v5::Auth::decode_async(&mut r, h(T::Auth)));
+            // headers whose type does not match the decoder they are given to
+            let mut r: &[u8] = b;
+            let _ = block_on(v5::Puback::decode_async(&mut r, h(T::Publish)));
+            let mut r: &[u8] = b;
+            let _ = block_on(v5::Publish::decode_async(&mut r, h(T::Auth)));
+            calls += 14;
+        }
+    }
+    ctx.more_evals(calls.saturating_sub(1));
+    ctx.count_distinct(calls);
+    ctx.label("body-level-declared-lengths");
+    ctx.sample(|| format!("{} calls of the body-level decoders with declared lengths 0 .. usize::MAX over 9 short bodies", calls));
+    Ok(())
+}
+
+pub const SUB_DECL: Sub = Sub { name: "c03.declared-lengths", f: case_declared_lengths };
+
 pub const SUB_TAPE: Sub = Sub { name: "c03.corrupted", f: case_tape };
 pub const SUB_BYTES: Sub = Sub { name: "c03.bytes", f: case_bytes };
 pub const SUB_BLOCK: Sub = Sub { name: "c03.short-strings", f: case_block };
 pub const SUB_HB: Sub = Sub { name: "c03.header-body", f: case_header_body };
 
 pub fn subs() -> Vec<Sub> {
-    vec![SUB_TAPE, SUB_BYTES, SUB_BLOCK, SUB_HB, SUB_OBS]
+    vec![SUB_TAPE, SUB_BYTES, SUB_BLOCK, SUB_HB, SUB_OBS, SUB_DECL]
 }
 
 /// maximal declared lengths and other hand-written vectors
@@ -304,6 +389,9 @@ pub fn run(env: &mut Env) -> RunResult {
         env.run_enum(SUB_OBS, n3 + n5, false, move |i| if i < n3 { Input::Nums(vec![0, i]) } else { Input::Nums(vec![1, i - n3]) })?;
         env.require("c03.state-observation", "state-observed-mid-body");
     }
+    // (one case, so that it runs on one thread: a declared length of 4 GiB is a 4 GiB virtual allocation)
+    env.run_inputs(SUB_DECL, &[Input::Nums(vec![0])])?;
+    env.require("c03.declared-lengths", "body-level-declared-lengths");
     env.run_inputs(SUB_BYTES, &vectors())?;
     let mut v: Vec<Input> = crate::checks::c04::vectors(crate::model::Fam::V3);
     v.extend(crate::checks::c04::vectors(crate::model::Fam::V5));
